@@ -681,6 +681,16 @@ class C12(ContSpec):
     def oracle(self, case, flavour, obs):
         return cc.oracle_roundtrip(case, obs)
 
+    def known(self, case, flavour, msg):
+        if (case.tags.get("kind") == "container-not-closed-under-adjacency" or case.name.startswith("known_container-not-closed-under-adjacency")) \
+                and ("not closed under adjacency" in msg or "a non-member serialises" in msg):
+            for kf in vlib.known_findings("C12"):
+                if kf.get("class") == "container-not-closed-under-adjacency":
+                    if not getattr(self, "_kf_line", None):    # one line per listed finding, with the first example met
+                        self._kf_line = "class=%s %s -- still fails, e.g. %s on %s: %s" % (kf["class"], kf["text"][:200], [s for s in case.steps if s.startswith(("con", "gins"))][:6], flavour, msg[:200])
+                    return self._kf_line
+        return None
+
 
 class C13(ContSpec):
     def cases(self, tier, rng):
@@ -1134,6 +1144,11 @@ fn main() {
     g.insert(b.clone());
     println!("index {} {}", g[1].key(), g[2].key());
     println!("default {}", Graph::<u64, i64, u64>::default().len());
+    // payloads without Display (unit values): the container methods must not ask for more than the twin does
+    let mut h: Graph<u64, (), ()> = Graph::new();
+    h.insert(Node::new(7, ()));
+    println!("unitdot {}", h.to_dot().split_whitespace().collect::<Vec<_>>().join(" "));
+    println!("unitlen {} {}", h.len(), h.contains(&7));
 }
 """
 
@@ -1161,7 +1176,7 @@ class C15(CaseSpec):
             if rc != 0:
                 outs[fl] = ("compile-error", [l for l in out.splitlines() if l.startswith("error")][:4])
             else:
-                outs[fl] = ("ok", [l for l in out.splitlines() if l.split(" ")[0] in ("parallel", "same-value-other-endpoints", "reverse", "index", "default")])
+                outs[fl] = ("ok", [l for l in out.splitlines() if l.split(" ")[0] in ("parallel", "same-value-other-endpoints", "reverse", "index", "default", "unitdot", "unitlen")])
         for a, b in (("digraph", "sync_digraph"), ("ungraph", "sync_ungraph")):
             if outs[a] != outs[b]:
                 rp = write_replay(prop, {"kind": "failing-input", "oracle": "the same program behaves differently on %s and %s: %s vs %s" % (a, b, outs[a], outs[b]),
